@@ -1,5 +1,6 @@
 """C08 -- Kruskal re-parameterisations preserve the tensor and reach their normal form."""
 import itertools
+import operator
 
 import numpy as np
 
@@ -24,6 +25,7 @@ EXHAUSTIVE = {
     "thorough": {"component permutations R<=4, component subsets R<=4, sign patterns 2^N for N<=4 x every component": "complete"},
 }
 STRIDED_ARGS = True   # a quarter of the cases pass every array argument as a strided, non-contiguous view (core.Ctx.begin)
+MUTSAN = "full"        # operand digests + result-vs-operand aliasing on every depth-0 call (pvm/mutsan.py)
 WATCHDOG = {"quick": 600, "thorough": 3000}
 TOL = 1e-10
 
@@ -103,6 +105,8 @@ def gen_cases(tier, seed):
     for i, case in enumerate(_gen_cases(tier, seed)):
         case["pre"] = PRE[(i * 5 + int(seed)) % len(PRE)]
         case["npint"] = [None, 0, None, 1, 2, None, 3, 4][(i * 3 + int(seed)) % 8]
+        # badly scaled but valid parameterisations: one column tiny / huge, compensated in the weight (same array)
+        case["imbalance"] = [None, None, 1e-9, None, 1e9, None, 1e-12, None, None, 1e-7, None][(i * 7 + int(seed)) % 11]
         yield case
 
 
@@ -175,6 +179,11 @@ def _make(case, rng):
         w = np.ones(R)
     if case.get("zerocol"):
         fm[int(rng.integers(0, len(shape)))][:, int(rng.integers(0, R))] = 0.0
+    if case.get("imbalance") and case.get("w") not in ("score", "score_zero"):
+        sc_ = float(case["imbalance"])
+        n_, r_ = int(rng.integers(0, len(shape))), int(rng.integers(0, R))
+        fm[n_][:, r_] *= sc_
+        w[r_] = w[r_] / sc_
     return ttb.ktensor([f.copy() for f in fm], w.copy())
 
 
@@ -194,7 +203,7 @@ def run_case(case, ctx):
         if pre not in CHANGES_TENSOR:
             ctx.check(close(denote(K), made, scale=float(np.max(np.abs(made))) + 1e-300, tol=TOL), "ktensor." + pre.split("-")[0], "CHANGED-TENSOR",
                       f"history step {pre} changed the denoted tensor", pre=pre)
-    ctx.feat(pre=str(pre), npint=case.get("npint") is not None)
+    ctx.feat(pre=str(pre), npint=case.get("npint") is not None, imbalance=str(case.get("imbalance")))
     before = denote(K)
     scale = float(np.max(np.abs(before))) + 1e-300
     ctx.feat(N=N, R=R, wk=case.get("wk"), zerocol=case.get("zerocol", False))
@@ -277,21 +286,31 @@ def run_case(case, ctx):
     elif w == "algebra":
         K2 = _make(dict(case, R=case["R2"], zerocol=False), rng)
         other = denote(K2)
-        s = ctx.must("ktensor.__add__", lambda: K + K2)
+        s = ctx.must("ktensor.__add__", operator.add, K, K2)
         ctx.check(close(denote(s), before + other, scale=scale + float(np.max(np.abs(other))), tol=TOL) and s.ncomponents == R + case["R2"],
                   "ktensor.__add__", "WRONG", "K + K2 is not the sum")
-        d = ctx.must("ktensor.__sub__", lambda: K - K2)
+        d = ctx.must("ktensor.__sub__", operator.sub, K, K2)
         ctx.check(close(denote(d), before - other, scale=scale + float(np.max(np.abs(other))), tol=TOL), "ktensor.__sub__", "WRONG", "K - K2 is not the difference")
-        n = ctx.must("ktensor.__neg__", lambda: -K)
+        n = ctx.must("ktensor.__neg__", operator.neg, K)
         ctx.check(close(denote(n), -before, scale=scale, tol=TOL), "ktensor.__neg__", "WRONG", "-K is not the negation")
-        p = ctx.must("ktensor.__pos__", lambda: +K)
+        p = ctx.must("ktensor.__pos__", operator.pos, K)
         ctx.check(close(denote(p), before, scale=scale, tol=TOL), "ktensor.__pos__", "WRONG", "+K differs")
+        products = [s, d, n, p]
         for c in (2.5, -0.5, 0.0):
-            m = ctx.must("ktensor.__mul__", lambda c=c: K * c)
+            m = ctx.must("ktensor.__mul__", operator.mul, K, c)
+            products.append(m)
             ctx.check(close(denote(m), before * c, scale=scale * max(abs(c), 1), tol=TOL), "ktensor.__mul__", "WRONG", f"K * {c} is not the multiple", c=c)
-            m = ctx.must("ktensor.__rmul__", lambda c=c: c * K)
+            m = ctx.must("ktensor.__rmul__", operator.mul, c, K)
+            products.append(m)
             ctx.check(close(denote(m), before * c, scale=scale * max(abs(c), 1), tol=TOL), "ktensor.__rmul__", "WRONG", f"{c} * K is not the multiple", c=c)
         unchanged("algebra", None, receiver=True)
+        # the results are objects of their own: re-parameterising them in place afterwards leaves both operands as they were
+        k2dig = denote(K2)
+        for obj in products:
+            how = int(rng.integers(0, 3))
+            (obj.normalize if how == 0 else (lambda o=obj: o.arrange()) if how == 1 else (lambda o=obj: o.redistribute(0)))()
+        unchanged("algebra", None, receiver=True, after_results_changed=True)
+        ctx.check(close(denote(K2), k2dig, tol=TOL), "algebra", "CHANGED-TENSOR", "second operand changed when a result was re-parameterised in place", after_results_changed=True)
     elif w == "fixsigns_alone":
         ctx.must("ktensor.fixsigns", K.fixsigns)
         unchanged("ktensor.fixsigns", None, ref=False)
